@@ -92,6 +92,10 @@ def check(prop, tier, replay=None):
         for kk in (k, 2 * k):
             for kind, text in gen.repeated_statements(kk):
                 jobs.append({"id": "C11-rep-%s-k%d" % (kind, kk), "text": text, "scenarios": [0], "pair": "C11-rep-%s-k%d" % (kind, k) if kk != k else None})
+    # statements combined in ways no fixture does (several allocate lines, scenario-specific duration, an undefined macro where
+    # a date belongs, header units, astronomic values, ...)
+    for kind, text in gen.odd_inputs():
+        jobs.append({"id": "C11-odd-%s" % kind, "text": text, "scenarios": [0]})
     seeds = []
     for name in ("dags", "limits_profile", "calendars", "teams_alts"):
         seeds += [("gen-" + pid, p.render()) for pid, p in getattr(gen, name)(rng, 3 if tier == "quick" else 25)]
